@@ -1,0 +1,54 @@
+//go:build verif
+
+// Contracts for the deductive verifier in /verif (comment-only file; see /verif/DESIGN.md).
+//
+// conn.Addr overlays a netip.Addr and a string header through unsafe casts. The verifier does not model
+// unsafe memory; the functions below are TRUSTED (their bodies are not verified): their contracts state,
+// with uninterpreted projections, what the casts mean.
+
+package conn
+
+//@ uninterp addrIP(hi uint64, lo uint64, z *byte) netip.Addr
+//@ uninterp addrDomain(z *byte, n uint64) string
+
+// An Addr is well formed when it is the zero value, an IP address, or a domain of length 1..255.
+//@ pure AddrWF(a Addr) bool = a.af <= 2 && (a.af == 2 ==> a.addr.hi >= 1 && a.addr.hi <= 255 && len(addrDomain(a.addr.z, a.addr.hi)) == int(a.addr.hi))
+
+//@ func (Addr).ip
+//@   trusted
+//@   modifies nothing
+//@   ensures result == addrIP(a.addr.hi, a.addr.lo, a.addr.z)
+
+//@ func (Addr).ipPort
+//@   trusted
+//@   modifies nothing
+//@   ensures result == netip.AddrPortFrom(addrIP(a.addr.hi, a.addr.lo, a.addr.z), a.port)
+
+//@ func (Addr).domain
+//@   trusted
+//@   modifies nothing
+//@   ensures result == addrDomain(a.addr.z, a.addr.hi)
+
+//@ func AddrFromIPPort
+//@   trusted
+//@   modifies nothing
+//@   ensures AddrWF(addr)
+//@   ensures addr.af == 1 && addr.port == addrPort.Port() && addrIP(addr.addr.hi, addr.addr.lo, addr.addr.z) == addrPort.Addr()
+
+//@ func AddrFromIPAndPort
+//@   trusted
+//@   modifies nothing
+//@   ensures AddrWF(result)
+//@   ensures result.af == 1 && result.port == port && addrIP(result.addr.hi, result.addr.lo, result.addr.z) == ip
+
+//@ func AddrFromDomainPort
+//@   trusted
+//@   modifies nothing
+//@   ensures isnil(result1) <==> (len(domain) >= 1 && len(domain) <= 255)
+//@   ensures isnil(result1) ==> result0.af == 2 && result0.port == port && result0.addr.hi == uint64(len(domain)) && addrDomain(result0.addr.z, result0.addr.hi) == domain
+//@   ensures !isnil(result1) ==> result0.af == 0
+//@   ensures AddrWF(result0)
+
+//@ func AddrPortMappedEqual
+//@   trusted
+//@   modifies nothing
